@@ -52,7 +52,8 @@ WriteTxn(x, tabs) ==
     /\ Range(tabs) \subseteq Tables
     /\ \A y \in DOMAIN wtx : wtx[y].st = "open" => wtx[y].tabs \cap Range(tabs) = {}  \* else it would block
     /\ wtx' = (x :> [tabs |-> Range(tabs), work |-> [t \in Range(tabs) |-> root[t]], base |-> root,
-                     st |-> "open",
+                     st |-> "open",      \* "open" -> "published" (visible to readers) -> "done" (Commit returned)
+                     pub |-> << >>,      \* the root right after this transaction was published
                      \* tables on which a compare-and-* operation of this transaction was rejected
                      rej |-> {}]) @@ wtx
     /\ res' = [op |-> "wtxn", tx |-> x, tables |-> tabs]
@@ -81,7 +82,7 @@ Write(kind, x, t, o, g, w, wc) ==
                /\ chan' = IF w = 0 THEN chan
                           ELSE (w :> [kind |-> "insert", t |-> t, idx |-> "id", q |-> "get", key |-> o.pk,
                                       res0 |-> << >>, rev0 |-> r.ts.rev, tx |-> x, live |-> FALSE,
-                                      must |-> FALSE, closed |-> wc]) @@ chan
+                                      must |-> FALSE, by |-> 0, closed |-> wc]) @@ chan
     /\ UNCHANGED << root, snap, iter >>
 
 DeleteAll(x, t) ==
@@ -109,7 +110,7 @@ QueryOp(s, t, idx, q, key, w, wc) ==
        /\ chan' = IF w = 0 THEN chan
                   ELSE (w :> [kind |-> "query", t |-> t, idx |-> idx, q |-> q, key |-> key,
                               res0 |-> rows, rev0 |-> ts.rev, tx |-> 0, live |-> IsSnap(s),
-                              must |-> FALSE, closed |-> wc]) @@ chan
+                              must |-> FALSE, by |-> 0, closed |-> wc]) @@ chan
     /\ UNCHANGED << root, wtx, snap, iter >>
 
 \* NumObjects / Revision
@@ -140,7 +141,7 @@ InitQuery(s, t, w, wc) ==
                   ELSE (w :> [kind |-> "init", t |-> t, idx |-> "", q |-> "", key |-> << >>, res0 |-> << >>,
                               rev0 |-> 0, tx |-> 0, live |-> IsSnap(s),
                               \* may it be closed?  only once an initialized committed state exists
-                              must |-> FALSE, closed |-> wc,
+                              must |-> FALSE, by |-> 0, closed |-> wc,
                               sawInit |-> (ts.pend = << >>) \/ (root[t].pend = << >>)]) @@ chan
     /\ UNCHANGED << root, wtx, snap, iter >>
 
@@ -183,7 +184,7 @@ IterNext(i, s, cs, cw, ex, w) ==
        /\ chan' = IF w = 0 THEN chan
                   ELSE (w :> [kind |-> "query", t |-> it.t, idx |-> "rev", q |-> "all", key |-> << >>,
                               res0 |-> << >>, rev0 |-> SrcCommitted(s, it.t).rev, tx |-> 0, live |-> TRUE,
-                              must |-> FALSE, closed |-> FALSE]) @@ chan
+                              must |-> FALSE, by |-> 0, closed |-> FALSE]) @@ chan
     /\ UNCHANGED << root, wtx, snap >>
 
 \* Close() is a write transaction of its own that unregisters the tracker
@@ -199,31 +200,52 @@ IterClose(i) ==
 \* channels after the commit of x published the tables in `new`
 AfterPublish(x, new) ==
     [ c \in DOMAIN chan |->
-        LET ch == chan[c] IN
+        LET ch == chan[c]
+            Must(b) == IF b /\ ~ch.must THEN [ch EXCEPT !.must = TRUE, !.by = x] ELSE ch IN
         IF ch.t \notin DOMAIN new THEN ch
         ELSE IF ch.kind = "init"
-             THEN [ch EXCEPT !.sawInit = @ \/ (new[ch.t].pend = << >>),
-                             !.must = @ \/ (ch.live /\ new[ch.t].pend = << >>)]
+             THEN LET c2 == Must(ch.live /\ new[ch.t].pend = << >>) IN
+                  [c2 EXCEPT !.sawInit = @ \/ (new[ch.t].pend = << >>)]
         ELSE IF ch.kind = "insert" /\ ch.tx = x THEN [ch EXCEPT !.live = TRUE, !.tx = 0]
         ELSE IF ~ch.live \/ ch.must THEN ch
         ELSE IF ch.kind = "insert"
-             THEN [ch EXCEPT !.must = \/ ~HasPk(new[ch.t].objs, ch.key)
-                                      \/ EntOf(new[ch.t].objs, ch.key).rev > ch.rev0]
-        ELSE IF TableWide(ch.idx, ch.q) THEN [ch EXCEPT !.must = new[ch.t].rev # ch.rev0]
-        ELSE [ch EXCEPT !.must = Query(new[ch.t], ch.idx, ch.q, ch.key) # ch.res0] ]
+             THEN Must(\/ ~HasPk(new[ch.t].objs, ch.key)
+                       \/ EntOf(new[ch.t].objs, ch.key).rev > ch.rev0)
+        ELSE IF TableWide(ch.idx, ch.q) THEN Must(new[ch.t].rev # ch.rev0)
+        ELSE Must(Query(new[ch.t], ch.idx, ch.q, ch.key) # ch.res0) ]
 
+\* the root after transaction x has been published
+After(x) == [t \in Tables |-> IF t \in DOMAIN wtx[x].work THEN wtx[x].work[t] ELSE root[t]]
+
+\* Publish: the single instant at which all writes of x become visible to new readers
+Publish(x) ==
+    /\ WOpen(x)
+    /\ root' = After(x)
+    /\ chan' = AfterPublish(x, wtx[x].work)
+    /\ iter' = [i \in DOMAIN iter |-> IF iter[i].tx = x /\ iter[i].st = "pending"
+                                       THEN [iter[i] EXCEPT !.st = "open"] ELSE iter[i]]
+    /\ wtx' = [wtx EXCEPT ![x].st = "published", ![x].pub = After(x)]
+    /\ res' = [op |-> "publish", tx |-> x, rejected |-> wtx[x].rej]
+    /\ UNCHANGED snap
+
+\* Commit returns the snapshot taken at the publish
+CommitRet(x, s) ==
+    /\ x \in DOMAIN wtx /\ wtx[x].st = "published" /\ s \notin DOMAIN snap
+    /\ snap' = (s :> wtx[x].pub) @@ snap
+    /\ wtx' = [wtx EXCEPT ![x].st = "done"]
+    /\ res' = [op |-> "commit", tx |-> x, snap |-> s, rejected |-> wtx[x].rej]
+    /\ UNCHANGED << root, chan, iter >>
+
+\* sequential Commit = Publish immediately followed by the return
 Commit(x, s) ==
     /\ WOpen(x) /\ s \notin DOMAIN snap
-    /\ LET new == wtx[x].work
-           r2  == [t \in Tables |-> IF t \in DOMAIN new THEN new[t] ELSE root[t]] IN
-       /\ root' = r2
-       /\ snap' = (s :> r2) @@ snap
-       /\ chan' = AfterPublish(x, new)
-       /\ iter' = [i \in DOMAIN iter |-> IF iter[i].tx = x /\ iter[i].st = "pending"
-                                          THEN [iter[i] EXCEPT !.st = "open"] ELSE iter[i]]
-    /\ wtx' = [wtx EXCEPT ![x].st = "done"]
-    /\ res' = [op |-> "commit", tx |-> x, snap |-> s,
-               rejected |-> wtx[x].rej]
+    /\ root' = After(x)
+    /\ snap' = (s :> After(x)) @@ snap
+    /\ chan' = AfterPublish(x, wtx[x].work)
+    /\ iter' = [i \in DOMAIN iter |-> IF iter[i].tx = x /\ iter[i].st = "pending"
+                                       THEN [iter[i] EXCEPT !.st = "open"] ELSE iter[i]]
+    /\ wtx' = [wtx EXCEPT ![x].st = "done", ![x].pub = After(x)]
+    /\ res' = [op |-> "commit", tx |-> x, snap |-> s, rejected |-> wtx[x].rej]
 
 Abort(x) ==
     /\ WOpen(x)
@@ -261,7 +283,9 @@ Needed(t) ==
 \* Invariants of the model
 Inv_C09_TableOK == \A t \in Tables : TableOK(root[t])
 Inv_C09_SnapOK  == \A s \in DOMAIN snap : \A t \in DOMAIN snap[s] : TableOK(snap[s][t])
-Inv_C06_Must    == \A c \in DOMAIN chan : chan[c].must => chan[c].closed
+\* due once the publishing transaction has returned from Commit
+MustDue(c) == chan[c].must /\ (chan[c].by = 0 \/ wtx[chan[c].by].st = "done")
+Inv_C06_Must    == \A c \in DOMAIN chan : MustDue(c) => chan[c].closed
 Inv_C06_Never   == \A c \in DOMAIN chan : chan[c].closed => MayClose(c)
 Act_C01_Frozen  == \A s \in DOMAIN snap : snap'[s] = snap[s]
 Prop_C01_Frozen == [][Act_C01_Frozen]_vars
@@ -281,7 +305,7 @@ Srcs == { [kind |-> "snap", id |-> s] : s \in DOMAIN snap }
         \cup { [kind |-> "wtxn", id |-> x] : x \in { y \in DOMAIN wtx : wtx[y].st = "open" } }
 Guards(t) == {0, 1} \cup { root[t].rev }
 Closable == { c \in DOMAIN chan : MayClose(c) }
-MustSet  == { c \in DOMAIN chan : chan[c].must }
+MustSet  == { c \in DOMAIN chan : MustDue(c) }
 
 Step ==
     \/ \E t \in 0..(NTables - 1) : t = Cardinality(Tables) /\ RegisterTable(t)
